@@ -422,6 +422,13 @@ pub struct Built {
     _scratch: Vec<Scratch>,
 }
 
+impl Built {
+    /// OS directories `<scratch>/outer` of the PhysicalFS bases (their roots are `outer/root`).
+    pub fn phys_outer_dirs(&self) -> Vec<std::path::PathBuf> {
+        self._scratch.iter().map(|s| s.path.join("outer")).collect()
+    }
+}
+
 /// Names used for altroot prefixes and sentinels; disjoint from every universe.
 pub const SENTINEL_DIR: &str = "/S";
 
@@ -471,22 +478,7 @@ impl Builder {
             Cfg::Alt(inner, p) => {
                 let first = self.bases.len();
                 let s = self.node(inner, &format!("{}.0", id), lower, upper, top_layer);
-                let root = if p.is_empty() { s.clone() } else { s.join(&p[1..]).expect("HARNESS: altroot prefix") };
-                root.create_dir_all().expect("HARNESS: create altroot directory");
-                if self.sentinels {
-                    // entries outside P that no call through the altroot may ever touch
-                    let sdir = s.join(&SENTINEL_DIR[1..]).unwrap();
-                    let _ = sdir.create_dir();
-                    let _ = sdir.join("f").unwrap().write_file(b"sentinel");
-                    if !p.is_empty() {
-                        let _ = s.join(&format!("{}x", &p[1..])).unwrap().write_file(b"sibling");
-                        let mut anc = crate::ops::parent_of(p);
-                        while !anc.is_empty() {
-                            let _ = s.join(&format!("{}/sf", &anc[1..])).unwrap().write_file(b"anc");
-                            anc = crate::ops::parent_of(&anc);
-                        }
-                    }
-                }
+                let root = make_altroot_dir(&s, p, self.sentinels);
                 for b in &mut self.bases[first..] {
                     b.prefix = format!("{}{}", b.prefix, p);
                 }
@@ -508,6 +500,27 @@ impl Builder {
             ctl: self.ctl.clone(),
         })
     }
+}
+
+/// Creates the altroot directory `p` in `s` plus (optionally) sentinel entries outside of it
+/// that no call through the altroot may ever touch.  Returns the path of `p`.
+pub fn make_altroot_dir(s: &VfsPath, p: &str, sentinels: bool) -> VfsPath {
+    let root = if p.is_empty() { s.clone() } else { s.join(&p[1..]).expect("HARNESS: altroot prefix") };
+    root.create_dir_all().expect("HARNESS: create altroot directory");
+    if sentinels {
+        let sdir = s.join(&SENTINEL_DIR[1..]).unwrap();
+        let _ = sdir.create_dir();
+        let _ = sdir.join("f").unwrap().write_file(b"sentinel");
+        if !p.is_empty() {
+            let _ = s.join(&format!("{}x", &p[1..])).unwrap().write_file(b"sibling");
+            let mut anc = crate::ops::parent_of(p);
+            while !anc.is_empty() {
+                let _ = s.join(&format!("{}/sf", &anc[1..])).unwrap().write_file(b"anc");
+                anc = crate::ops::parent_of(&anc);
+            }
+        }
+    }
+    root
 }
 
 /// Initial contents: (base index, entries relative to the top-level namespace).
